@@ -630,12 +630,13 @@ PROPS["C01"] = dict(
                  "now reproduces it",
                  "raw_value: the analogous reading of $serde_json::private::RawValue (the string is re-parsed as JSON) is NOT modelled: "
                  "open finding C01-rv-private-rawvalue-token, whose signature still covers the model disagreements on those inputs"],
-    partial=["c01_ap_accepts_iff_partial: the accepted language of the faithful model under arbitrary_precision is characterised for "
-             "(1) every input in which no first key decodes to the token (exactly the RFC 8259 texts with the side conditions) and "
-             "(2) every document that is itself an object whose first key decodes to the token (exactly { token : \"number literal\" }). "
-             "Missing: the composition for token-first objects nested in / next to other containers (c01_ap_token_object gives the "
-             "exact reading of each such object from the machine state after its first key; composing it over a derivation needs the "
-             "soundness / completeness inductions redone for MachineAp)",
+    partial=["c01_ap_accepts_iff (the accepted language of the faithful model under arbitrary_precision = RFC 8259 texts with the side "
+             "conditions in which every token-first object is { token : \"number literal\" }) states the shape clause on the run of "
+             "the byte-step machine (TokenTailsOK: at every position where the machine has read a first key equal to the token and "
+             "sees the colon, a TokenTail follows), not on the syntax tree (Spec.PrivateToken.TokenShaped); the equivalence of the two "
+             "formulations is not proved. Purely syntactic formulations are proved for two families (c01_ap_accepts_iff_partial): "
+             "inputs in which no first key decodes to the token (lexical scan of the bytes, or tokenFree on the tree) and documents "
+             "that are themselves a token-first object",
              "raw_value: objects whose first key is the private RawValue token are outside both models (open finding; the models side "
              "with RFC 8259, the crate does not)"],
     technique="Lean 4 theorem c01_accepts_iff: the byte-step machine accepts exactly an inductive RFC 8259 grammar plus the stated side "
@@ -658,7 +659,11 @@ PROPS["C01"] = dict(
                "text none of whose objects has a first key decoding to the token has no hit in the scan), c01_ap_token_language (a document that is such an object is accepted iff it has that shape; "
                "its value is the number), c01_ap_token_value_not_string / _not_number / _extra_member / _eof (the specific errors: "
                "serde's invalid type; Number::from_str's error with its own line and column; trailing comma / characters; EOF), "
-               "c01_ap_accepts_iff_partial.",
+               "c01_ap_accepts_iff_partial; c01_ap_sound (EVERY input: what the faithful model accepts is an RFC 8259 text meeting the "
+               "side conditions - the token reading never admits non-JSON; by running MachineAp and the machine side by side: the "
+               "machine's control flow never inspects collected values, step1_eqv) and c01_ap_accepts_iff (the faithful model accepts "
+               "exactly the texts the machine accepts in which, at every first key equal to the token, the rest of the object is "
+               ": \"number literal\" } ).",
     level_note="Trusted: Lean kernel + 3 standard axioms; extract.py (depth 128, whitespace set, literals, number::TOKEN and the "
                "fingerprints of KeyClassifier / visit_map / NumberFromString / end_map / Number::from_str regenerated); harness/driver; "
                "the hand-written models Model.Machine and Model.MachineAp validated by correspondence (0 disagreements over all "
